@@ -202,6 +202,7 @@ func expandItems(target Schema, parentRefs []string, resolver *schemaLoader, bas
 }
 
 func expandSchema(target Schema, parentRefs []string, resolver *schemaLoader, basePath string) (*Schema, error) {
+	verifStep("expand", parentRefs, target.Ref.String(), basePath)
 	if target.Ref.String() == "" && target.Ref.IsRoot() {
 		newRef := normalizeRef(&target.Ref, basePath)
 		target.Ref = *newRef
@@ -375,6 +376,7 @@ func expandSchemaRef(target Schema, parentRefs []string, resolver *schemaLoader,
 		return &target, nil
 	}
 
+	verifStep("follow", parentRefs, normalizedRef.String(), basePath)
 	parentRefs = append(parentRefs, normalizedRef.String())
 	transitiveResolver := resolver.transitiveResolver(basePath, target.Ref)
 
